@@ -123,7 +123,8 @@ def build_pairs(sources, seed: int, per_kind: int):
         res, rec = result_of(s, dialect)
         if rec["exc"]:
             continue
-        lines, cands = candidates(rec, rnd, per_kind)
+        # (one random stream PER DOCUMENT, seeded by its name: adding or removing sources does not change what is sampled for the others)
+        lines, cands = candidates(rec, random.Random(f"{seed}:{name}"), per_kind)
         cases = []
         for tr in cands:
             tl = apply(lines, tr)
